@@ -40,6 +40,24 @@ def asmap(x):
     return {int(k): v for k, v in x.items()}
 
 
+_SUBS = {}
+
+
+def inherited(base, beh):
+    """the instance's class: the declaring class itself, a subclass or a grandchild of it (the dependent
+    method is then inherited through 0, 1 or 2 levels) -- chosen per behaviour, deterministically"""
+    import json
+    import zlib
+    depth = zlib.crc32(json.dumps(beh, sort_keys=True).encode()) % 3
+    key = (base, depth)
+    if key not in _SUBS:
+        cls = base
+        for i in range(depth):
+            cls = type("%s_s%d" % (base.__name__, i + 1), (cls,), {})
+        _SUBS[key] = cls
+    return _SUBS[key]
+
+
 def replay(beh, opts):
     steps = beh["steps"]
     st0 = steps[0]
@@ -50,7 +68,7 @@ def replay(beh, opts):
     mids = {int(k): Mid(name="mid", b=leaves.get(v)) for k, v in asmap(st0["midb"]).items()}
     pool = dict(leaves)
     pool.update(mids)
-    top = top_class(deps)(a=pool.get(st0["ta"]), c=pool.get(st0["tc"]))
+    top = inherited(top_class(deps), beh)(a=pool.get(st0["ta"]), c=pool.get(st0["tc"]))
     top._log = []
 
     def offpath_watchers(onpath):
